@@ -12,6 +12,7 @@ CHECKS = {
         "jobs": [
             {"pkg": "c01", "run": "TestMem", "checks": {Q: 4000, T: 160000}, "shards": {Q: 4, T: 16}},
             {"pkg": "c01", "run": "TestNet", "checks": {Q: 2000, T: 48000}, "shards": {Q: 4, T: 16}},
+            {"pkg": "c01", "run": "TestMemBig", "checks": {Q: 32, T: 1600}, "shards": {Q: 8, T: 16}},
         ],
     },
     "C03": {
